@@ -241,9 +241,9 @@ def read_cases(path):
 def eval_cases(pid, spec, cases, shard=150, timeout=900):
     """Run `check` of Checks/<pid>check.v over every case inside Coq (vm_compute).
     Returns list of verdict codes (0 ok, bit0 model!=impl, bit1 monitor rejects impl trace)."""
-    odir = os.path.join(OUT, pid, "shards")
+    odir = os.path.join(OUT, pid, f"shards-{os.getpid()}")
     shutil.rmtree(odir, ignore_errors=True)
-    os.makedirs(odir)
+    os.makedirs(odir, exist_ok=True)
     shards = [cases[i:i + shard] for i in range(0, len(cases), shard)]
 
     def one(ix):
@@ -270,6 +270,7 @@ def eval_cases(pid, spec, cases, shard=150, timeout=900):
     with cf.ThreadPoolExecutor(max_workers=JOBS) as ex:
         for r in ex.map(one, range(len(shards))):
             codes.extend(r)
+    shutil.rmtree(odir, ignore_errors=True)
     return codes
 
 
